@@ -207,6 +207,10 @@ def go_test(mod, pkg_rel, pkgname, harness_files, run, out_dir, env_extra=None, 
     render_util(pkgname, util)
     ov[os.path.join(pkg_dir, "zz_verif_util_test.go")] = util
     for i, hf in enumerate(harness_files):
+        if hf.endswith(".tmpl"):  # shared helper: rendered for this package
+            rendered = os.path.join(out_dir, f"zz_verif_tmpl{i}_test.go")
+            open(rendered, "w").write(open(hf).read().replace("PKGNAME", pkgname))
+            hf = rendered
         ov[os.path.join(pkg_dir, f"zz_verif_{i}_test.go")] = hf
     for k, v in (replace or {}).items():
         ov[k] = v
